@@ -705,6 +705,13 @@ class Pool:
             self.objs[k] = skfem.Basis(self.mesh(mname), self.elem(ename))
         return self.objs[k]
 
+    def fbasis(self, mname, ename):
+        import skfem
+        k = ('fb', mname, ename)
+        if k not in self.objs:
+            self.objs[k] = skfem.FacetBasis(self.mesh(mname), self.elem(ename))
+        return self.objs[k]
+
     def system(self, mname, ename):
         """(A, b, D, x) assembled once and reused"""
         import skfem
@@ -845,6 +852,32 @@ def do_op(pool, d, mon):
         def a(u, v, w):
             return dot(u, v) * (2.0 + w.x[0]) + ((u * v) * w.h if not vec else 0.0)
         return canon(a.assemble(bs))
+    if k == 'asm_facet':
+        fb = mon.watch(pool.fbasis(d['mesh'], d['elem']), 'facet_basis')
+        from skfem.helpers import dot
+        vec = d['elem'].startswith('ElementVector') or d['elem'] == 'ElementTriRT1'
+
+        @skfem.BilinearForm
+        def a(u, v, w):
+            return dot(u, v) * (1.0 + w.x[0] * w.n[0]) if vec else u * v * (1.0 + w.x[0] * w.n[0]) * w.h
+
+        @skfem.Functional
+        def fn(w):
+            return w.x[0] * w.n[0]
+        return canon([a.assemble(fb), fn.assemble(fb)])
+    if k == 'linear':
+        bs = mon.watch(pool.basis(d['mesh'], d['elem']), 'basis')
+        vec = d['elem'].startswith('ElementVector') or d['elem'] == 'ElementTriRT1'
+        y = mon.watch(np.cos(np.arange(bs.N) * 0.3), 'y')
+
+        @skfem.LinearForm
+        def f(v, w):
+            return (v[0] if vec else v) * (1.0 + w.x[0]) + 0.0 * w['prev'].value.sum(axis=0) if vec else v * (1.0 + w.x[0]) * w['prev']
+
+        @skfem.Functional
+        def fn(w):
+            return (w['prev'].value[0] if vec else w['prev']) * w.x[0]
+        return canon([f.assemble(bs, prev=y), fn.assemble(bs, prev=bs.interpolate(y)), fn.elemental(bs, prev=y)])
     if k == 'interp':
         bs = mon.watch(pool.basis(d['mesh'], d['elem']), 'basis')
         y = mon.watch(np.cos(np.arange(bs.N) * 0.7 + d.get('seed', 0)), 'y')
@@ -963,7 +996,9 @@ def random_op(rng, sub=None):
     fam, meshes, elems = sub if sub is not None else random_subpool(rng)
     mname, ename = rng.choice(meshes), rng.choice(elems)
     glob = ename in GLOBAL_ELEMS
-    kinds = ['conn', 'asm', 'asm', 'interp', 'map', 'map', 'gbasis', 'gbasis']
+    kinds = ['conn', 'asm', 'asm', 'interp', 'map', 'map', 'gbasis', 'gbasis', 'linear']
+    if not glob and fam not in ('tri2',):
+        kinds += ['asm_facet']
     if fam != 'tri2' and not glob and ename != 'ElementTriRT1':
         kinds += ['probes', 'interpolator', 'interpolator', 'point_source', 'point_source']
     if not glob and not ename.startswith('ElementVector'):
@@ -975,8 +1010,8 @@ def random_op(rng, sub=None):
     k = rng.choice(kinds)
     if k == 'conn':
         return {'op': 'conn', 'mesh': mname}
-    if k == 'asm':
-        return {'op': 'asm', 'mesh': mname, 'elem': ename}
+    if k in ('asm', 'asm_facet', 'linear'):
+        return {'op': k, 'mesh': mname, 'elem': ename}
     if k == 'interp':
         return {'op': 'interp', 'mesh': mname, 'elem': ename, 'seed': rng.randrange(3)}
     if k in ('probes', 'interpolator', 'point_source'):
@@ -1075,7 +1110,8 @@ def classify(ops, kind):
         return 'cache:ElementQuadP.P:stale-table'
     if e in ('ElementTriMorley', 'ElementTriArgyris', 'ElementLineHermite'):
         return 'cache:ElementGlobal.V:element-reused-on-another-mesh'
-    if last['op'] == 'map':
+    iso = FAMILY.get(last.get('mesh', ''), '') in ('quad', 'hex', 'tri2')
+    if last['op'] == 'map' or (iso and any(o['op'] == 'map' and o.get('mesh') == last.get('mesh') for o in ops[:-1])):
         return 'cache:MappingIsoparametric.J:hash_args-ignores-shape-dtype'
     return f'history-dependent:{last["op"]}:{e}'
 
